@@ -4,7 +4,7 @@ from mindsdb_sql.parser.ast import *
 from mindsdb_sql.exceptions import ParsingException
 from mindsdb_sql.parser.lexer import SQLLexer
 from mindsdb_sql.parser.logger import ParserLogger
-from mindsdb_sql.parser.utils import ensure_select_keyword_order, JoinType, unescape_string
+from mindsdb_sql.parser.utils import ensure_select_keyword_order, JoinType, to_alias, unescape_string
 
 
 class SQLParser(Parser):
@@ -433,7 +433,7 @@ class SQLParser(Parser):
     def from_table_aliased(self, p):
         entity = p.from_table
         if hasattr(p, 'identifier'):
-            entity.alias = p.identifier
+            entity.alias = to_alias(p.identifier)
         return entity
 
     @_('LPAREN query RPAREN')
@@ -492,7 +492,7 @@ class SQLParser(Parser):
         col = p.result_column
         if col.alias:
             raise ParsingException(f'Attempt to provide two aliases for {str(col)}')
-        col.alias = p.identifier
+        col.alias = to_alias(p.identifier)
         return col
 
     @_('LPAREN select RPAREN')
